@@ -3,7 +3,7 @@
 ok=0; bad=0
 for d in seeded/*/; do
   d=${d%/}
-  [ -f $d/patch.diff ] || continue; case $d in seeded/harmless*) continue;; esac
+  [ -f $d/patch.diff ] || continue; case $d in seeded/harmless*|seeded/rewrite*) continue;; esac
   out=$(sh tools_run_seeded.sh $d 2>&1 | grep "^== ")
   if echo "$out" | grep -q "exit=1"; then ok=$((ok+1)); else bad=$((bad+1)); echo "NOT DETECTED: $out"; fi
 done
